@@ -70,6 +70,7 @@ def gen_case_restart(seed, tier, index=0):
     plan = {}
     hook = {}
     use_hook_file = rr.random() < 0.5
+    all_sim = rr.random() < 0.1  # the simulator backend cannot be mixed with real ones
     for i in range(n):
         name = 'ABC'[i]
         c = {'name': name, 'stage': 0, 'refs': []}
@@ -80,7 +81,7 @@ def gen_case_restart(seed, tier, index=0):
         programs.gen_restart_attrs(rr, c)
         if rr.random() < 0.3:
             c['shutdownOn'] = rr.sample(['KnownIssue', 'ResourceExhausted', 'SystemIssue'], 1)
-        if rr.random() < 0.1:
+        if all_sim:
             c['backend'] = 'simulator'
         comps.append(c)
         on = c.get('restartHookOn')
@@ -255,11 +256,17 @@ def effective_exit(node, hist):
     """exit reason of the component as the documented rules see it, from the observed executions"""
     if not hist:
         return None
+    if node['repeat']:
+        # a repeating engine reports the exit of the last task it actually ran (a failed launch leaves none behind)
+        ran = [x for x in hist if not x.get('launch_failed')]
+        if not ran:
+            return 'Success'
+        if ran[-1]['reason'] is None:
+            return None
+        return 'ResourceExhausted' if ran[-1]['reason'] == 'ResourceExhausted' else 'Success'
     last = hist[-1]
     if last['reason'] is None:
         return None
-    if node['repeat']:
-        return 'ResourceExhausted' if last['reason'] == 'ResourceExhausted' else 'Success'
     return last['reason']
 
 
@@ -384,9 +391,16 @@ def oracle_c02(nodes, ev, outcomes, states_end, states_settled, stop, viol, rec,
             continue
         pst = {p: model.get(p) for p in nd['preds']}
         cand = None
-        if any(isinstance(s, str) and s == 'failed' for s in pst.values()):
+
+        def soft_edge(p):  # same-stage subject of a repeating observer: its fate is undefined at the observer's launch
+            return nd['repeat'] and nodes[p]['stage'] == nd['stage']
+
+        failed_preds = [p for p, s in pst.items() if isinstance(s, str) and s == 'failed']
+        if any(not soft_edge(p) for p in failed_preds):
             cand = {'component_shutdown'}
         else:
+            if failed_preds:
+                cand = 'either'
             shut = [p for p, s in pst.items() if s == {'component_shutdown'} or s == 'component_shutdown']
             maybe_shut = [p for p, s in pst.items() if isinstance(s, set) and 'component_shutdown' in s and len(s) > 1]
             if nd['aggregate']:
@@ -505,7 +519,13 @@ def classify_hang(nodes, ev, stuck):
             restarted = any(e[2] == 'restart' and (e[4] or {}).get('code') == 'RestartInitiated' for e in evs)
             stopped = any(e[2] == 'finish' and e[4]['state'] == 'running' for e in evs)
             last_kinds = [k for k in kinds if k in ('launch', 'launch-fail', 'exit', 'restart')]
-            if restarted and stopped:
+            stale = [e[0] for e in evs if e[2] == 'postMortemCheck' and e[4].get('exitReason') is None]
+            last_exit = max([e[0] for e in evs if e[2] in ('exit', 'launch-fail')] or [0])
+            last_pm = max([e[0] for e in evs if e[2] == 'postMortemCheck'] or [0])
+            if stale and last_pm == stale[-1] and last_exit > last_pm and not stopped:
+                # a stale notification (engine alive again) was the last one; the real exit after it changed nothing
+                shapes.add('postmortem-stuck:after-stale-notification')
+            elif restarted and stopped:
                 shapes.add('postmortem-stuck:stopped-while-restarting')
             elif restarted and nodes[n]['repeat'] and last_kinds and last_kinds[-1] == 'launch-fail':
                 shapes.add('postmortem-stuck:repeating-engine-restart-launch-failed')
@@ -640,7 +660,8 @@ def run_case(case, schedule, opts):
         except simk.SimStop:
             raise
         except Exception as e:
-            invalid = repr(e)[:500]
+            import traceback
+            invalid = repr(e)[:300] + ' | ' + traceback.format_exc()[-1500:]
             exp = None
         if exp is not None:
             ctx.exp = exp
